@@ -7,7 +7,7 @@
 From Coq Require Import List NArith Bool.
 From Verif.Common Require Import Packet PolicyRef Labels.
 From Verif.C05 Require Import Model Spec ProofsFilter ProofsProfiles ProofsStep ProofsVerdict ProofsMain ProofsOracle
-  ProofsPolicies ProofsIndex ProofsPolStep ProofsPolMain ProofsNoPanic ProofsTrace ProofsBatch.
+  ProofsPolicies ProofsIndex ProofsPolStep ProofsPolMain ProofsNoPanic ProofsTrace ProofsBatch ModelSync SpecSync ProofsSync ProofsSyncTrace.
 Import ListNotations.
 Open Scope N_scope.
 
@@ -215,4 +215,68 @@ Example c05_example_batch :
         write (KEp 0) (Some (VEp {| ep_labels := []; ep_profiles := [7; 8] |})) [] [7; 8];
         write (KProf 8) (Some (VProf {| pr_in := [ex_bad; ex_allow]; pr_out := [] |})) [] [] ] ]
   = [ [EStats 0 0 0]; [EProfActive 7 dummy_drop; EProfActive 8 dummy_drop]; [EProfActive 8 dummy_drop; EStats 0 0 0] ].
+Proof. vm_compute. reflexivity. Qed.
+
+(* SYNC STATUS (ModelSync.v: OnStatusUpdate, initialSyncCompleted, missingProfiles).  Histories are now lists of
+   datastore updates AND status messages (WaitForDatastore / ResyncInProgress / InSync, any number, anywhere).
+   A status message emits nothing and leaves the calculator's caches alone: the emitted stream is the stream of the
+   updates alone. *)
+Theorem c05_status_is_silent : forall (validate : value -> bool) h ss,
+  concat (sevents (srun validate ss h)) = concat (run validate (ss_st ss) (updates_of h))
+  /\ ss_st (sfinal validate ss h) = final validate (ss_st ss) (updates_of h).
+Proof. exact srun_stream. Qed.
+Print Assumptions c05_status_is_silent.
+
+(* ALWAYS - before the first InSync, across it, after it, after repeated ones (h is arbitrary and the value of
+   initialSyncCompleted it leaves behind, `insync`, is arbitrary): a profile named by an endpoint and missing from /
+   invalid in the datastore is in the dataplane as the stand-in, inbound [deny], outbound [deny]. *)
+Theorem c05_missing_profile_denies_always : forall (validate : value -> bool) h e ep p (insync : bool),
+  let d := ds_of validate ds0 (updates_of h) in
+  ss_insync (sfinal validate sst0 h) = insync ->
+  aget e (d_eps d) = Some ep -> In p (ep_profiles ep) -> aget p (d_profs d) = None ->
+  aget p (v_profs (sview validate h)) = Some dummy_drop
+  /\ pr_in dummy_drop = [deny_rule] /\ pr_out dummy_drop = [deny_rule] /\ cr_action deny_rule = Deny.
+Proof. exact missing_profile_denies_always. Qed.
+Print Assumptions c05_missing_profile_denies_always.
+
+Theorem c05_profiles_fail_closed_always : forall (validate : value -> bool) h e ep p,
+  let d := ds_of validate ds0 (updates_of h) in
+  aget e (d_eps d) = Some ep -> In p (ep_profiles ep) ->
+  aget p (v_profs (sview validate h)) = Some (expected_profile d p).
+Proof. exact profiles_fail_closed_always. Qed.
+Print Assumptions c05_profiles_fail_closed_always.
+
+(* The end-of-resync warning: the first InSync after ANY history names exactly the dangling profile references of
+   the filtered datastore (missingProfiles = dangling references is an invariant of the resync phase), emits nothing
+   and completes the initial sync; afterwards missingProfiles stays empty. *)
+Theorem c05_resync_warning_exact : forall (validate : value -> bool) h,
+  ss_insync (sfinal validate sst0 h) = false ->
+  let out := sstep validate (sfinal validate sst0 h) (SStat StInSync) in
+  fst (snd out) = [] /\ ss_st (fst out) = ss_st (sfinal validate sst0 h) /\ ss_insync (fst out) = true
+  /\ forall p, In p (snd (snd out)) <-> In p (dangling (ds_of validate ds0 (updates_of h))).
+Proof. exact resync_warning_exact. Qed.
+Print Assumptions c05_resync_warning_exact.
+
+Theorem c05_missing_empty_after_insync : forall (validate : value -> bool) h,
+  ss_insync (sfinal validate sst0 h) = true -> ss_missing (sfinal validate sst0 h) = [].
+Proof. exact missing_empty_after_insync. Qed.
+Print Assumptions c05_missing_empty_after_insync.
+
+(* The oracle for traces WITH status messages that the correspondence run applies to the implementation
+   (SpecSync.sok_case: per update as ok_case; per status message: nothing programmed, still fail closed, the warning
+   names exactly the dangling references) accepts the model's own trace of every well-typed history. *)
+Theorem c05_smodel_meets_spec : forall (validate : value -> bool) h sizes,
+  (forall si, In si h -> swt si) ->
+  sok_case {| sc_graph := false; sc_sizes := sizes; sc_items := strace_of validate sst0 h |} = true.
+Proof. exact smodel_meets_spec. Qed.
+Print Assumptions c05_smodel_meets_spec.
+
+(* Non-vacuity: endpoint delivered during the resync names missing profile 7 -> stand-in at once; InSync warns about
+   [7] and emits nothing; a second InSync does nothing; the stand-in is still there. *)
+Example c05_example_sync :
+  srun ex_validate sst0
+    [ SStat StResync;
+      SUpd (write (KEp 0) (Some (VEp {| ep_labels := []; ep_profiles := [7] |})) [] []);
+      SStat StInSync; SStat StInSync ]
+  = [ ([], []); ([EProfActive 7 dummy_drop], []); ([], [7]); ([], []) ].
 Proof. vm_compute. reflexivity. Qed.
